@@ -3,8 +3,8 @@ CONSTANTS
   PKs = {1, 2}
   Vals = {0, 1}
   Pays = {0}
-  MaxOps = 4
-  MaxSaves = 1
+  MaxOps = 3
+  MaxSaves = 2
   Preload <- PreloadAll
   EmitOn = FALSE
 VIEW view
